@@ -284,6 +284,38 @@ func main() {
 			}
 		}
 		rewroteSync := false
+		inMake := map[*ast.ChanType]bool{}
+		recv2 := map[*ast.UnaryExpr]bool{}
+		// names declared with a channel type or assigned from make(chan ...)
+		chanNames := map[string]bool{}
+		ast.Inspect(f.file, func(n ast.Node) bool {
+			switch t := n.(type) {
+			case *ast.Field:
+				if _, ok := t.Type.(*ast.ChanType); ok {
+					for _, id := range t.Names {
+						chanNames[id.Name] = true
+					}
+				}
+			case *ast.ValueSpec:
+				if _, ok := t.Type.(*ast.ChanType); ok {
+					for _, id := range t.Names {
+						chanNames[id.Name] = true
+					}
+				}
+				for i, v := range t.Values {
+					if isMakeChan(v) && i < len(t.Names) {
+						chanNames[t.Names[i].Name] = true
+					}
+				}
+			case *ast.AssignStmt:
+				for i, v := range t.Rhs {
+					if isMakeChan(v) && i < len(t.Lhs) {
+						chanNames[lastIdent(t.Lhs[i])] = true
+					}
+				}
+			}
+			return true
+		})
 		clauseBlocks := map[*ast.BlockStmt]bool{} // bodies that hold case clauses, not statements
 		ast.Inspect(f.file, func(n ast.Node) bool {
 			switch t := n.(type) {
@@ -315,14 +347,45 @@ func main() {
 				} else {
 					add(pos(c.Lparen), 1, ", ")
 				}
-			case *ast.SendStmt:
-				unsupported = append(unsupported, fmt.Sprintf("%s:%d: channel send inside the library", rel, line(t.Pos())))
+			case *ast.SendStmt: // c <- v  ->  c.Send(v)
+				add(pos(t.Arrow), 2, ".Send(")
+				add(pos(t.End()), 0, ")")
+			case *ast.ChanType: // chan T -> *simsched.Chan[T] (except inside make, handled there)
+				if !inMake[t] {
+					add(pos(t.Pos()), pos(t.Value.Pos())-pos(t.Pos()), "*simsched.Chan[")
+					add(pos(t.Value.End()), 0, "]")
+				}
+			case *ast.AssignStmt: // v, ok := <-c  ->  v, ok := c.Recv2()
+				if len(t.Lhs) == 2 && len(t.Rhs) == 1 {
+					if u, ok := t.Rhs[0].(*ast.UnaryExpr); ok && u.Op == token.ARROW {
+						recv2[u] = true
+					}
+				}
+			case *ast.RangeStmt:
+				// for v := range ch {  ->  for { v, ok_ := ch.Recv2(); if !ok_ { break };
+				if chanNames[lastIdent(t.X)] {
+					x := string(f.src[pos(t.X.Pos()):pos(t.X.End())])
+					k := "_"
+					if t.Key != nil {
+						k = string(f.src[pos(t.Key.Pos()):pos(t.Key.End())])
+					}
+					head := fmt.Sprintf("for { %s, verifOK := %s.Recv2(); if !verifOK { break }; ", k, x)
+					if t.Tok == token.ASSIGN {
+						head = fmt.Sprintf("for { var verifOK bool; %s, verifOK = %s.Recv2(); if !verifOK { break }; ", k, x)
+					}
+					add(pos(t.For), pos(t.Body.Lbrace)+1-pos(t.For), head)
+				}
 			case *ast.SelectStmt:
 				clauseBlocks[t.Body] = true
 				unsupported = append(unsupported, fmt.Sprintf("%s:%d: select inside the library", rel, line(t.Pos())))
-			case *ast.UnaryExpr:
+			case *ast.UnaryExpr: // <-c  ->  c.Recv()
 				if t.Op == token.ARROW {
-					unsupported = append(unsupported, fmt.Sprintf("%s:%d: channel receive inside the library", rel, line(t.Pos())))
+					add(pos(t.OpPos), 2, "")
+					if recv2[t] {
+						add(pos(t.X.End()), 0, ".Recv2()")
+					} else {
+						add(pos(t.X.End()), 0, ".Recv()")
+					}
 				}
 			case *ast.SelectorExpr:
 				if id, ok := t.X.(*ast.Ident); ok && id.Name == "sync" && t.Sel.Name == "WaitGroup" {
@@ -333,6 +396,21 @@ func main() {
 					unsupported = append(unsupported, fmt.Sprintf("%s:%d: sync.Cond inside the library", rel, line(t.Pos())))
 				}
 			case *ast.CallExpr:
+				if id, ok := t.Fun.(*ast.Ident); ok && id.Name == "make" && len(t.Args) >= 1 {
+					if ct, ok := t.Args[0].(*ast.ChanType); ok { // make(chan T, n) -> simsched.MakeChan[T](n)
+						inMake[ct] = true
+						add(pos(t.Pos()), pos(ct.Value.Pos())-pos(t.Pos()), "simsched.MakeChan[")
+						if len(t.Args) >= 2 {
+							add(pos(ct.Value.End()), pos(t.Args[1].Pos())-pos(ct.Value.End()), "](")
+						} else {
+							add(pos(ct.Value.End()), pos(t.Rparen)-pos(ct.Value.End()), "](0")
+						}
+					}
+				}
+				if id, ok := t.Fun.(*ast.Ident); ok && id.Name == "close" && len(t.Args) == 1 { // close(c) -> c.Close()
+					add(pos(t.Pos()), pos(t.Args[0].Pos())-pos(t.Pos()), "")
+					add(pos(t.Args[0].End()), pos(t.End())-pos(t.Args[0].End()), ".Close()")
+				}
 				sel, ok := t.Fun.(*ast.SelectorExpr)
 				if !ok {
 					break
@@ -392,6 +470,19 @@ func main() {
 		fatal(err)
 	}
 	fmt.Printf("instrument: %d sites in %d files, table %s\n", len(table.Sites)-1, len(files), table.Hash)
+}
+
+func isMakeChan(e ast.Expr) bool {
+	c, ok := e.(*ast.CallExpr)
+	if !ok || len(c.Args) == 0 {
+		return false
+	}
+	id, ok := c.Fun.(*ast.Ident)
+	if !ok || id.Name != "make" {
+		return false
+	}
+	_, ok = c.Args[0].(*ast.ChanType)
+	return ok
 }
 
 func isNilNode(n ast.Node) bool {
